@@ -1,6 +1,7 @@
 package props
 
 import (
+	"crypto/rsa"
 	"crypto/tls"
 	"fmt"
 	"time"
@@ -17,6 +18,23 @@ func init() {
 	register(&Prop{ID: "C07", Run: runC07, MinNontrivial: 500,
 		Rule:        "cases built by a party knowing only the SP certificate: plaintext in {IdP-signed assertion (replayed), unsigned forged, attacker-signed with own certificate, attacker-signed with the trusted certificate in KeyInfo, non-assertion element, a whole Response, garbage} x 5 data algorithms x {OAEP-MGF1P, OAEP-1.1, PKCS#1 v1.5} x placement {direct child, inside Extensions / Advice / arbitrary wrapper, nested in another assertion} x recipient certificate in EncryptedKey {none, the SP's, another, bad base64} x enclosing Response {unsigned, attacker-signed}; plus a configuration class: ValidateEncryptionCert on/off x SP clock {inside, before, after the SP certificate window} x SP certificate {valid, empty list, empty bytes, junk DER} with a genuinely IdP-signed plaintext; oracle: accepted => every returned assertion equals an IdP-signed record, the encrypted element was a direct child, the named recipient was none or the SP's, and (option on => certificate parses and the injected now is inside its window); the fully valid configuration must accept; non-trivial = decryption logic reached; distinct by parameter tuple",
 		Assumptions: []string{"the SP certificate window's exact end instants are not probed"}})
+}
+
+type keyPair struct {
+	key  *rsa.PrivateKey
+	cert []byte
+}
+
+// rotatingKeyStore answers successive GetKeyPair calls with successive pairs (the last one repeats).
+type rotatingKeyStore struct {
+	pairs []keyPair
+	n     int
+}
+
+func (s *rotatingKeyStore) GetKeyPair() (*rsa.PrivateKey, []byte, error) {
+	p := s.pairs[min(s.n, len(s.pairs)-1)]
+	s.n++
+	return p.key, p.cert, nil
 }
 
 func runC07(c *mon.Ctx) {
@@ -171,7 +189,7 @@ func runC07(c *mon.Ctx) {
 		t      time.Time
 		inside bool
 	}{{"inside", nb.Add(time.Hour), true}, {"before", nb.Add(-time.Second), false}, {"after", na.Add(time.Second), false}, {"just-inside-start", nb.Add(time.Second), true}, {"just-inside-end", na.Add(-time.Second), true}}
-	certKinds := []string{"valid", "valid", "empty-list", "empty-bytes", "junk"}
+	certKinds := []string{"valid", "valid", "empty-list", "empty-bytes", "junk", "rotating-store"}
 	nc := c.N(800, 20000)
 	for k := 0; k < nc; k++ {
 		cs := c.Begin("encryption-cert-config", k)
@@ -214,6 +232,11 @@ func runC07(c *mon.Ctx) {
 			sp.SPKeyStore = dsig.TLSCertKeyStore(tls.Certificate{Certificate: [][]byte{{}}, PrivateKey: spCert.Key.RSA()})
 		case "junk":
 			sp.SPKeyStore = dsig.TLSCertKeyStore(tls.Certificate{Certificate: [][]byte{[]byte("this is not DER")}, PrivateKey: spCert.Key.RSA()})
+		case "rotating-store":
+			// the store answers the first call with the key the message is encrypted to but an unusable certificate,
+			// later calls with a fine pair: the certificate that belongs to the decrypting key is the one that counts
+			bad := pick(r, [][]byte{sim.Mint(spCert.Key, nb.AddDate(-3, 0, 0), nb.AddDate(-2, 0, 0), 22).DER, sim.Mint(spCert.Key, na.AddDate(2, 0, 0), na.AddDate(3, 0, 0), 23).DER, []byte("garbage"), {}})
+			sp.SPKeyStore = &rotatingKeyStore{pairs: []keyPair{{spCert.Key.RSA(), bad}, {spCert.Key.RSA(), spCert.DER}, {spCert.Key.RSA(), spCert.DER}}}
 		}
 		cs.Desc("option=%v clock=%s cert=%s setter=%v %s", opt, clk.name, ck, useSetter, a.Enc)
 		cs.Input([]byte(doc))
@@ -225,6 +248,9 @@ func runC07(c *mon.Ctx) {
 		}
 		cs.Nontrivial(cs.Description())
 		mustRefuse := opt && (ck != "valid" || !clk.inside)
+		if ck == "rotating-store" && !opt {
+			mustRefuse = false
+		}
 		mustAccept := ck == "valid" && (!opt || clk.inside)
 		switch {
 		case verr == nil && mustRefuse:
